@@ -127,7 +127,29 @@ PROPS["C14"] = {
                    "no-op) is a library property: ASSUMED, bounded conformance only.",
 }
 PROPS["C06"]["functions"] += ["xandikos.icalendar.ICalendarFile.get_uid"]
-PROPS["C11"]["functions"] += ["xandikos.icalendar.as_tz_aware_ts"]
+IC = "xandikos.icalendar."
+FILTERS = "filters.py"
+_FILTER_FNS = [IC + "ComponentTimeRangeMatcher.match", IC + "PropertyTimeRangeMatcher.match", IC + "TextMatcher.match",
+               IC + "TextMatcher.match@category", IC + "ParameterFilter.match", IC + "PropertyFilter.match",
+               IC + "ComponentFilter.match", IC + "CalendarFilter.check"]
+_FILTER_BOUND = ("CALDAV:filter grammar: VCALENDAR > {VEVENT, VTODO, VJOURNAL} > {empty, is-not-defined, 3 time-ranges, VALARM "
+                 "(is-not-)defined, prop-filter on 5 properties x {empty, is-not-defined, text-match (plain / negated / i;octet), "
+                 "3 time-ranges, param-filter (is-not-)defined / text-match}} x 6 calendar objects (1026 cases), parsed by "
+                 "caldav.parse_filter and evaluated by CalendarFilter.check on real icalendar objects")
+PROPS["C11"]["functions"] += ["xandikos.icalendar.as_tz_aware_ts"] + _FILTER_FNS
+for _f in _FILTER_FNS:
+    PROPS["C11"]["replay"][_f] = FILTERS
+    PROPS["C11"]["standins"][_f] = {"driver": FILTERS, "bound": _FILTER_BOUND}
+# the XML -> filter-tree parser (caldav.parse_filter and helpers take bound methods of the tree
+# under construction as arguments: outside the verifier's reach) is covered by the bounded
+# explorer on every run
+PROPS["C11"]["bounded_always"] = {"xandikos.caldav.parse_filter": {"driver": FILTERS, "bound": _FILTER_BOUND}}
+PROPS["C11"]["level"] = "other"
+PROPS["C11"]["explanation"] = (
+    "RFC 4791 9.9 time-range tables (VEVENT, VTODO, VJOURNAL), how DATE / floating / zoned values are placed on the time line, "
+    "and comp-filter / prop-filter / param-filter / text-match evaluation are discharged function by function against the RFC; "
+    "the XML-to-filter parser and the report driver are covered by a bounded explorer only; text-match implements equality "
+    "instead of substring (known finding); VFREEBUSY time-range and multi-instance properties are outside the contracts.")
 PROPS["C11"]["replay"]["xandikos.icalendar.as_tz_aware_ts"] = PURE
 PROPS["C11"]["standins"]["xandikos.icalendar.as_tz_aware_ts"] = {"driver": PURE, "bound": "6 date / floating / zoned values x 4 default zones"}
 PROPS["C13"] = {
@@ -184,7 +206,16 @@ for _sp in PROPS.values():
             _seen.append(_f)
     _sp["functions"] = _seen
 
+def _equals_not_substring(cex, rec):
+    # the refuting model distinguishes the two text primitives
+    obs = (cex or {}).get("$ghost") or []
+    eq = {o["value"] for o in obs if o.get("f") == "collate" and (o.get("args") or [None] * 4)[3] == "equals"}
+    co = {o["value"] for o in obs if o.get("f") == "collate" and (o.get("args") or [None] * 4)[3] == "contains"}
+    return (bool(eq) and bool(co) and eq != co) or not obs
+
+
 WITNESS = {
+    "equals_not_substring": _equals_not_substring,
     # the exception was raised after the body had been read and the collection created
     "raised_after_creation": lambda cex, rec: rec.get("effects", [])[:1] == ["read_body"] and "created" in rec.get("effects", []),
 }
